@@ -22,6 +22,8 @@ ids = [a for i, a in enumerate(args) if not a.startswith("-") and (i == 0 or arg
 sub = "seeded" if mode == "seeds" else "refactors"
 ids = ids or sorted(os.path.basename(d) for d in glob.glob(os.path.join(V, sub, "C*")) if os.path.isdir(d))
 props = sorted(os.path.basename(p)[:-3] for p in glob.glob(os.path.join(V, "cnvlint", "props", "C*.py")))
+if os.environ.get("MX_PROPS"):          # restrict the checks run (after a change to only some of them)
+    props = [p for p in props if p in os.environ["MX_PROPS"].split(",")]
 MX = f"/tmp/mx.{os.getpid()}"          # one scratch area per run: several runs may be in flight
 subprocess.run(["git", "-C", "/repo", "worktree", "prune"])
 os.makedirs(MX)
